@@ -995,13 +995,18 @@ class ArrayScale(Sub):
         probes = [('xa+1', [x + 1 for x in xs]), ('2*xa', [2 * x for x in xs]), ('xa-xb', [x - y for x, y in zip(xs, ys)]),
                   ('xa*xb', [x * y for x, y in zip(xs, ys)]), ('xa/xa', [1.0] * n), ('10-xa', [10 - x for x in xs]),
                   ('xt&xt', txt + txt), ('xt&1', txt + '1'), ('SUM(xa*2)', n * (n + 1))]
+        # text operands padded with blanks to a total length of n: the number / the date they spell, whatever the length
+        probes += [('xnp+1', 4), ('2*xnl', 7.0)]
+        if n >= 10:
+            probes += [('xdp-xdq', 0), ('(xdp+1)-xdq', 1), ('(xdl+0)=xdq', True)]
         if n >= 2:      # a one-item array against two items is not demanded (it may broadcast like a scalar)
             probes += [('xa+xc', '#VALUE!'), ('xc*xa', '#VALUE!')]
         if n <= 257:
             L = '{' + ','.join(str(x) for x in xs) + '}'
             probes += [('%s+1' % L, [x + 1 for x in xs]), ('%s*%s' % (L, L), [x * x for x in xs])]
         out = []
-        vars_ = {'xa': xs, 'xb': ys, 'xc': xs + [0], 'xt': txt}
+        vars_ = {'xa': xs, 'xb': ys, 'xc': xs + [0], 'xt': txt, 'xnp': '3' + ' ' * (n - 1), 'xnl': ' ' * max(0, n - 3) + '3.5'[:n] if n >= 3 else '3.5',
+                 'xdp': '2020-01-31' + ' ' * max(0, n - 10), 'xdl': ' ' * max(0, n - 10) + '2020-01-31', 'xdq': datetime.datetime(2020, 1, 31)}
         for f, want in probes:
             o = env.evo(f, dict(vars_))
             ok = (o == ['e', want]) if isinstance(want, str) and want.startswith('#') else (
